@@ -1558,7 +1558,10 @@ class C04(Check):
         k = case["kind"]
         if k == "hostile":
             return {"kind": "skip"}
-        line = {"kind": k, "opts": case.get("opts", {}), "script": case.get("script", []), "legacy": case.get("legacy", {})}
+        opts = dict(case.get("opts", {}))
+        if opts.get("no_data_loss") and opts.get("addition") is None:
+            opts["addition"] = False        # Options.__init__: no_data_loss => addition=False unless given (options.py:151-155)
+        line = {"kind": k, "opts": opts, "script": case.get("script", []), "legacy": case.get("legacy", {})}
         if k == "rule":
             inp = _tok_json(case["input"])
             line.update(origin=case["origin"], args=case.get("args"), validators=case.get("validators", []),
